@@ -144,7 +144,7 @@ Definition not_set (a : act) : Prop := match a with ASetStable _ _ => False | _ 
 Lemma io_SS a e : not_set a -> SS e (snd (io a e)).
 Proof.
   intros Ha. unfold SS, io.
-  destruct (is_delete a); [cbn [snd e_disk]; rewrite apply_stable; destruct a; try reflexivity; contradiction|].
+  destruct (is_delete a); [destruct (armed e && fx_del (e_fx e)); [reflexivity|]; cbn [snd e_disk]; rewrite apply_stable; destruct a; try reflexivity; contradiction|].
   destruct (e_fault e) as [[|f]|]; cbn [snd e_disk]; try reflexivity; rewrite apply_stable;
     destruct a; try reflexivity; contradiction.
 Qed.
@@ -162,7 +162,8 @@ Ltac ss_close := first [apply SS_refl | assumption | (eapply SS_trans; [eassumpt
 Lemma seg_create_SS si e : SS e (snd (seg_create si e)).
 Proof.
   unfold seg_create. destruct (si_base si =? 0); [apply SS_refl|].
-  destruct (lookup _ _); io_step; [ss_close|]. destruct b; ss_close.
+  destruct (lookup _ _); io_step; [ss_close|]. destruct b; [ss_close|]. cbn [snd].
+  destruct (fx_leave (e_fx e)); [|ss_close]. unfold SS, leave_entry in *. cbn [e_disk apply_act dk_stable]. exact Hio.
 Qed.
 Lemma seg_append_SS w ls e : SS e (snd (seg_append w ls e)).
 Proof.
@@ -292,7 +293,8 @@ Proof.
   assert (H0 : SS e (snd (if dk_inited (e_disk e) then (true, e) else io AInitMeta e))).
   { destruct (dk_inited (e_disk e)); [apply SS_refl|apply (io_SS AInitMeta e I)]. }
   destruct (if dk_inited (e_disk e) then (true, e) else io AInitMeta e) as [ok0 e0]. cbn [snd] in H0.
-  destruct ok0; cbn [negb]; [|exact H0]. cbv zeta.
+  destruct ok0; cbn [negb]; [|exact H0].
+  destruct (armed e0 && fx_list (e_fx e0)); [exact H0|]. cbv zeta.
   match goal with |- context [open_segs c ?segs [] e0] =>
     assert (H1 := open_segs_SS c segs [] e0); destruct (open_segs c segs [] e0) as [[[r segs'] tail] e1] end.
   cbn [snd] in H1. destruct r; try (cbn [snd]; ss_close).
